@@ -68,7 +68,7 @@ def doc_text(h, ctexts):
     b = body_text(h, ctexts)
     if h["kind"] in ("instantiate", "migrate"):
         return b
-    return "{" + dumps(h["name"]) + ":" + b + "}"
+    return "{" + dumps(T.wire_name(h["name"])) + ":" + b + "}"
 
 
 def event_args(h, ctexts):
@@ -76,7 +76,7 @@ def event_args(h, ctexts):
 
 
 def wire_names(prog, part_id, kind):
-    return sorted(h["name"] for h in handlers(prog, kind=kind, part=part_id))
+    return sorted(T.wire_name(h["name"]) for h in handlers(prog, kind=kind, part=part_id))
 
 
 API_PREFIXES = ["cosmwasm", "juno", "osmo", "wasm", "neutron", "stars"]
